@@ -129,7 +129,8 @@ class KrylovBased:
 
     def __init__(self, H, psi0, options):
         self.H = H
-        self.psi0 = psi0.copy()
+        # (a list-valued psi0 needs copies of its entries: they get normalized in place)
+        self.psi0 = psi0.copy() if not isinstance(psi0, list) else [p.copy() for p in psi0]
         self._psi0_norm = None
         self.options = options = asConfig(options, self.__class__.__name__)
         self.N_min = options.get('N_min', 2, int)
